@@ -1,4 +1,118 @@
 /-
-  C12 — automatic path finding.  Property theorems only (filled in as proofs land).
+  C12 — automatic path finding (`find_path`, `_precompute_bfs`; algo/find_path.py, graphs without a pre-trained
+  model).  Property theorems only; proofs in `CvProofs/Mitm.lean`, concrete graphs in `CvProofs/PathsExample.lean`,
+  `CvProofs/MitmExample.lean`.
+
+  `find_path` caches a BFS ball around the central state (in `g` when the generators are inverse-closed, in the inverted
+  graph `gi` otherwise) and runs `MeetInTheMiddle.find_path_from` / `find_path_to` on it.
+
+  DEVIATION FROM THE REQUESTED STATEMENT of `findPath_shortest` (false as written, see `CvProps/C05a.lean` for the
+  counterexample on `MeetInTheMiddle.find_path_to`, which `find_path` calls): the backward BFS inside the MITM search uses
+  the default `max_layer_size_to_explore = 10**12`; hypothesis `hexp` excludes layers that large.  `findPath_valid` holds
+  as requested, and `findPath_core` (no size hypothesis) shows that the size limit is the only other reason for `None`.
 -/
-import CvModel.Paths
+import CvProofs.Mitm
+import CvProofs.MitmExample
+set_option linter.unusedSectionVars false
+namespace Cv.C12
+open Cv Cv.PathsExample Cv.MitmExample
+
+variable {α : Type} [DecidableEq α]
+
+/-- the cached ball is a ball: `precomputeBfs` returns per-layer hashes of the distance classes around the central state -/
+theorem precomputeBfs_isBall (g : Graph α) (central : α) (hb : BfsHyp g [central]) (me md : Option Nat) :
+    IsBall g central (precomputeBfs g central me md).hashes ∧ (precomputeBfs g central me md).hashes ≠ [] := by
+  exact Cv.precomputeBfs_isBall g central hb me md
+-- non-vacuity: the 6-cycle, `max_diameter = 2`
+example : BfsHyp ex6 [0] ∧ (precomputeBfs ex6 0 none (some 2)).hashes = [[0], [1, 5], [2, 4]] :=
+  ⟨ex6_findHyp.bfsG, ex6_precompute⟩
+-- the inverted directed 5-cycle, `max_diameter = 1`
+example : BfsHyp ex5i [0] ∧ (precomputeBfs ex5i 0 none (some 1)).hashes = [[0], [4]] :=
+  ⟨ex5_findHyp.bfsGi, ex5i_precompute1⟩
+
+/-- whatever `find_path` returns replays from the start state to the central state (both branches) -/
+theorem findPath_valid (g gi : Graph α) (central : α) (h : PathHyp g gi) (hbg : BfsHyp g [central]) (hbi : BfsHyp gi [central])
+    (hsg : g.invClosed = true → Symm g.nb) (hsi : gi.invClosed = true → Symm gi.nb)
+    (hbsg : 0 < g.batchSize) (hbsi : 0 < gi.batchSize)
+    (invMap : Option (List Nat)) (hm : g.invClosed = true → ∃ m, invMap = some m ∧ IsInvMap g m)
+    (start : α) (me md : Option Nat) :
+    match findPath g gi invMap central start me md with
+    | .found p => applyPath g.act start p = central ∧ ∀ i ∈ p, i < g.nGens
+    | .notFound => True
+    | .assertFail _ => False := by
+  exact Cv.findPath_valid g gi invMap central start ⟨h, hbg, hbi, hsg, hsi, hbsg, hbsi, hm⟩ me md
+-- non-vacuity: the hypotheses hold on the 6-cycle (inverse-closed branch) and on the directed 5-cycle (other branch)
+example : FindHyp ex6 ex6i (some [1, 0]) 0 ∧ ex6.invClosed = true := ⟨ex6_findHyp, rfl⟩
+example : FindHyp ex5 ex5i none 0 ∧ ex5.invClosed = false := ⟨ex5_findHyp, rfl⟩
+example : findPath ex6 ex6i (some [1, 0]) 0 4 none (some 1) = .found [0, 0] ∧ applyPath ex6.act 4 [0, 0] = 0 :=
+  ⟨ex6_findPath_found, by decide⟩
+example : findPath ex5 ex5i none 0 3 none (some 1) = .found [0, 0] ∧ applyPath ex5.act 3 [0, 0] = 0 :=
+  ⟨ex5_findPath_found, by decide⟩
+-- `hm` is needed: inverse-closed generators without an inverse map trip the assertion in `revert_path`
+example : findPath ex6 ex6i none 0 4 none (some 1) = .assertFail "Cannot revert path" := by mitm_eval
+
+/-- shortest within twice the depth of the internal BFS; `notFound` only when no path of that length exists.
+    `depth` is the depth of the cached ball (in `g` when inverse-closed, in the inverted graph otherwise). -/
+theorem findPath_shortest (g gi : Graph α) (central : α) (h : PathHyp g gi) (hbg : BfsHyp g [central]) (hbi : BfsHyp gi [central])
+    (hsg : g.invClosed = true → Symm g.nb) (hsi : gi.invClosed = true → Symm gi.nb)
+    (hbsg : 0 < g.batchSize) (hbsi : 0 < gi.batchSize)
+    (invMap : Option (List Nat)) (hm : g.invClosed = true → ∃ m, invMap = some m ∧ IsInvMap g m)
+    (start : α) (me md : Option Nat)
+    (hexp : ∀ k L, 1 ≤ k →
+      k ≤ (if g.invClosed then (precomputeBfs g central me md).hashes else (precomputeBfs gi central me md).hashes).length - 1 →
+      IsLayer (if g.invClosed then gi else g) [start] k L → L.length < 10^12) :
+    let ball := if g.invClosed then (precomputeBfs g central me md).hashes else (precomputeBfs gi central me md).hashes
+    match findPath g gi invMap central start me md with
+    | .found p => (p.length ≤ 2 * (ball.length - 1)) ∧ ∀ n, Walk g.nb n start central → p.length ≤ n
+    | .notFound => ∀ n, n ≤ 2 * (ball.length - 1) → ¬ Walk g.nb n start central
+    | .assertFail _ => False := by
+  exact Cv.findPath_shortest g gi invMap central start ⟨h, hbg, hbi, hsg, hsi, hbsg, hbsi, hm⟩ me md hexp
+-- non-vacuity: the size hypothesis holds on the small graphs; `max_diameter = 1`, so the depth is 1 and paths of length ≤ 2 are found
+example : ∀ k L, 1 ≤ k →
+    k ≤ (if ex6.invClosed then (precomputeBfs ex6 0 none (some 1)).hashes else (precomputeBfs ex6i 0 none (some 1)).hashes).length - 1 →
+    IsLayer (if ex6.invClosed then ex6i else ex6) [3] k L → L.length < 10^12 :=
+  fun k L _ _ hL => ex6i_small 3 (by decide) k L hL
+example : ∀ k L, 1 ≤ k →
+    k ≤ (if ex5.invClosed then (precomputeBfs ex5 0 none (some 1)).hashes else (precomputeBfs ex5i 0 none (some 1)).hashes).length - 1 →
+    IsLayer (if ex5.invClosed then ex5i else ex5) [2] k L → L.length < 10^12 :=
+  fun k L _ _ hL => ex5_small 2 (by decide) k L hL
+example : findPath ex6 ex6i (some [1, 0]) 0 4 none (some 1) = .found [0, 0] ∧
+    findPath ex6 ex6i (some [1, 0]) 0 3 none (some 1) = .notFound := ⟨ex6_findPath_found, ex6_findPath_notFound⟩
+example : findPath ex5 ex5i none 0 3 none (some 1) = .found [0, 0] ∧
+    findPath ex5 ex5i none 0 2 none (some 1) = .notFound := ⟨ex5_findPath_found, ex5_findPath_notFound⟩
+
+/-- COUNTEREXAMPLE to the statement without `hexp`: `find_path(graph, start, max_layer_size_to_explore=10**13,
+max_diameter=2)` on ℤ with the generators `-1 … -10^12` (not inverse-closed), central state `0`, start state `3·10^12 + 1`:
+every other hypothesis holds, the cached ball has depth 2, a walk of `4 = 2·2` edges from the start to the central state
+exists, and the answer is `None` (the inner backward BFS stops at its default size limit `10**12`). -/
+example : FindHyp exZi exZ none 0 ∧
+    findPath exZi exZ none 0 destZ (some (10^13)) (some 2) = .notFound ∧
+    4 ≤ 2 * ((if exZi.invClosed then (precomputeBfs exZi 0 (some (10^13)) (some 2)).hashes
+      else (precomputeBfs exZ 0 (some (10^13)) (some 2)).hashes).length - 1) ∧
+    Walk exZi.nb 4 destZ 0 := by
+  refine ⟨exZi_findHyp, exZi_findPath_notFound, ?_, exZi_walk4⟩
+  have hic : exZi.invClosed = false := rfl
+  simp only [hic, Bool.false_eq_true, if_false]
+  rw [precomputeZ_length]
+  decide
+
+/-- everything at once and without any size hypothesis: valid, shortest, bounded; the assertions are unreachable; `None`
+only if no path of length at most twice the depth exists or the backward BFS hit its default size limit `10**12` -/
+theorem findPath_core (g gi : Graph α) (invMap : Option (List Nat)) (central start : α)
+    (H : FindHyp g gi invMap central) (me md : Option Nat) :
+    match findPath g gi invMap central start me md with
+    | .found p => applyPath g.act start p = central ∧ (∀ i ∈ p, i < g.nGens) ∧
+        p.length ≤ 2 * ((if g.invClosed then (precomputeBfs g central me md).hashes
+          else (precomputeBfs gi central me md).hashes).length - 1) ∧
+        ∀ n, Walk g.nb n start central → p.length ≤ n
+    | .notFound =>
+        (∀ n, n ≤ 2 * ((if g.invClosed then (precomputeBfs g central me md).hashes
+          else (precomputeBfs gi central me md).hashes).length - 1) → ¬ Walk g.nb n start central) ∨
+        ∃ k L, 1 ≤ k ∧ k ≤ (if g.invClosed then (precomputeBfs g central me md).hashes
+          else (precomputeBfs gi central me md).hashes).length - 1 ∧
+          IsLayer (if g.invClosed then gi else g) [start] k L ∧ 10^12 ≤ L.length
+    | .assertFail _ => False := by
+  exact Cv.findPath_core g gi invMap central start H me md
+example : FindHyp ex6 ex6i (some [1, 0]) 0 := ex6_findHyp
+
+end Cv.C12
